@@ -49,6 +49,7 @@ func genReqSc(g *simrt.Tape, maxItems int) ReqSc {
 	}
 	rs.Option = g.Draw(4)
 	rs.Hdr = genHdr(g)
+	rs.IDs = genIDs(g)
 	if rs.Option == 3 && g.Draw(2) == 0 {
 		rs.Option = g.Draw(3)
 	}
@@ -439,6 +440,10 @@ func init() {
 			{Name: "supported-set-spellings", Count: func(string) int { return 3 * 4 * 9 }, Scenario: func(_ string, i int) any {
 				return &C09Sc{Supported: []int{5, 20, 31}[i%3], SupportedSpelling: (i / 3) % 4,
 					Reqs: []ReqSc{{Version: i / 12, Option: 1, Items: []ItemSc{{Tok: "ok"}, {Tok: "ok"}}}}}
+			}},
+			{Name: "item-id-spellings", Count: func(string) int { return 6 * 4 * 3 }, Scenario: func(_ string, i int) any {
+				toks := [][]ItemSc{{{Tok: "ok"}, {Tok: "ok"}, {Tok: "ok"}}, {{Tok: "ok"}, {Tok: "et"}, {Tok: "ok"}, {Tok: "ok"}}, {{Tok: "ok"}, {Tok: "ok", NoID: true}, {Tok: "pe"}, {Tok: "ok"}, {Tok: "ok"}}}
+				return &C09Sc{EndToEnd: i%2 == 1, Reqs: []ReqSc{{Version: 2 + i%3, Option: (i / 6) % 4, IDs: 1 + i%6, Items: toks[i/24]}}}
 			}},
 			{Name: "header-elements", Count: func(string) int { return len(allHdrs()) * 4 }, Scenario: func(_ string, i int) any {
 				hs := allHdrs()
